@@ -329,7 +329,10 @@ for _g, _props in _RELP.items():
 # fourth corpus (T<prop>.p<i>: "go deeper" rewrites - storage nodes merged into one generic struct, shared fill helper / boxed constructor without a
 # Vec, pull-form map override on Box, forget-first hand-overs, where-clause reshuffles; written after seed round 7)
 _RELT = {"T01": ["C01", "C02", "C10", "C12", "C18", "C19"], "T03": ["C03", "C04", "C05", "C07", "C08", "C09", "C18"], "T07": ["C03", "C04", "C07", "C15", "C16"],
-         "T12": ["C08", "C09", "C12"], "T16": ["C03", "C04", "C08", "C15", "C16"]}
+         "T12": ["C08", "C09", "C12"], "T16": ["C03", "C04", "C08", "C15", "C16"], "T05": ["C03", "C04", "C05", "C06"],
+         # fifth corpus (U<prop>.p<i>, written after seed round 9 with a list of what had been done before)
+         "U02": ["C01", "C02", "C10", "C12", "C13", "C18", "C20"], "U06": ["C03", "C04", "C05", "C06"], "U10": ["C01", "C02", "C10", "C12", "C18"], "U11": ["C03", "C09", "C11", "C12", "C18"],
+         "U13": ["C02", "C13"], "U15": ["C03", "C04", "C07", "C15", "C16"], "U17": ["C03", "C04", "C12", "C17"]}
 _SKIPT = set()
 for _g, _props in _RELT.items():
     for _i in (1, 2, 3):
@@ -471,3 +474,12 @@ benign("c03-debug-assert-is-full-removed", ["C03", "C04", "C18"], [("src/interna
 
 mutant_on_patch("m-P17p3-slot-next-to-the-cursor", "P17.p3", ["C17", "C04"], [("src/impl_serde.rs", "while let Some(slot) = slots.get_mut(*position) {", "while let Some(slot) = slots.get_mut(*position ^ 1) {")], "")
 mutant_on_patch("m-P17p3-counted-before-read", "P17.p3", ["C17", "C04"], [("src/impl_serde.rs", "        match seq.next_element()? {\n            Some(el) => {\n                slot.write(el);\n                *position += 1;\n            }", "        *position += 1;\n        match seq.next_element()? {\n            Some(el) => {\n                slot.write(el);\n            }")], "")
+
+
+# fifth corpus
+mutant_on_patch("m-U13p3-empty-shortcut-says-less", "U13.p3", ["C13"], [("src/impls.rs", "            return Ordering::Equal;", "            return Ordering::Less;")], "C13.D")
+mutant_on_patch("m-U06p1-then-guard-inclusive", "U06.p1", ["C06", "C03"], [("src/iter.rs", "        (self.index < self.index_back).then(|| {\n            let i = self.index;", "        (self.index <= self.index_back).then(|| {\n            let i = self.index;")], "")
+mutant_on_patch("m-U06p3-fold-loop-leaves-early", "U06.p3", ["C03"], [("src/iter.rs", "        while let Some(value) = self.next() {\n            acc = f(acc, value);\n        }", "        while let Some(value) = self.next() {\n            acc = f(acc, value);\n            if self.index == 1 {\n                break;\n            }\n        }")], "C03.F")
+mutant_on_patch("m-T05p2-last-does-not-shrink", "T05.p2", ["C05", "C06"], [("src/iter.rs", "        self.index_back -= 1;\n\n        // Note, everything else will correctly drop first as `self` leaves scope.", "        // Note, everything else will correctly drop first as `self` leaves scope.")], "")
+mutant_on_patch("m-U17p2-stored-but-not-counted", "U17.p2", ["C17", "C04"], [("src/impl_serde.rs", "                    dst.write(el);\n                    *position += 1;\n                    ControlFlow::Continue(())", "                    dst.write(el);\n                    ControlFlow::Continue(())")], "")
+mutant_on_patch("m-U17p3-source-polls-twice", "U17.p3", ["C17"], [("src/impl_serde.rs", "            builder.extend(iter::from_fn(|| match seq.next_element() {", "            builder.extend(iter::from_fn(|| match seq.next_element::<T>().and_then(|_| seq.next_element()) {")], "C17.V")
